@@ -230,6 +230,8 @@ def compare_dag(prog, dag, modname):
             fs.append(F(['C15'], 'node_attrs_differ', node=n, exp=a, got=got_nodes[n]))
     exp_e = {}
     for u, v, a in edges:
+        if 'kwarg_name' not in a and a in exp_e.get((u, v), []):
+            continue        # the same switch mark declared for two parameters: structural edges exist once
         exp_e.setdefault((u, v), []).append(a)
     got_e = {(u, v): norm_attrs(d) for u, v, d in g.edges(data=True)}
     for (u, v), lst in exp_e.items():
@@ -237,7 +239,17 @@ def compare_dag(prog, dag, modname):
             fs.append(F(['C15'], 'edge_missing', edge=[u, v], exp=lst))
             continue
         if len(lst) > 1:
-            fs.append(F(['C15'], 'parallel_dependencies_merged', edge=[u, v], declared=lst, got=got_e[(u, v)]))
+            # several parameter marks refer to the same upstream node.  The graph has one edge per node pair, so the
+            # edge has to deliver to every declared parameter name (kwarg_name + extra_kwarg_names, each exactly
+            # once) and must carry nothing else.
+            got = dict(got_e[(u, v)])
+            names = ([got.pop('kwarg_name')] if 'kwarg_name' in got else []) + list(got.pop('extra_kwarg_names', ()))
+            declared = [a.get('kwarg_name') for a in lst]
+            rest = {}
+            for a in lst:
+                rest.update({k: x for k, x in a.items() if k != 'kwarg_name'})
+            if sorted(map(str, names)) != sorted(map(str, declared)) or got != rest:
+                fs.append(F(['C15'], 'parallel_dependencies_merged', edge=[u, v], declared=lst, got=got_e[(u, v)]))
         elif got_e[(u, v)] != lst[0]:
             fs.append(F(['C15'], 'edge_attrs_differ', edge=[u, v], exp=lst[0], got=got_e[(u, v)]))
     for e in got_e:
@@ -308,7 +320,7 @@ def work_c15(prop, tier, seed, widx, nworkers):
     acc = Acc(prop)
     harness.setup_engine()
     for i in range(nprog):
-        hostile = rng.choice([None, None, None, None, 'dup_param'])
+        hostile = rng.choice([None, None, None, None, 'dup_param'])      # not hostile any more (D33): a feature family
         base = gen.gen_program(rng, gen.profile(p_sw=0.25, p_oneof=0.25, p_rec=0.2, hostile=hostile))
         prog = decorate(base, rng)
         if rng.random() < 0.3:   # unnamed switches
